@@ -19,6 +19,7 @@ package db19
 import (
 	"fmt"
 	"math/rand"
+	"os"
 	"slices"
 	"sort"
 	"strings"
@@ -47,40 +48,40 @@ type dpCfg struct {
 }
 
 type dpRow struct {
-	off  uint64
-	size int
+	off     uint64
+	size    int
 	k, a, b string
 }
 
 type dpTran struct {
-	id    int
-	ut    *UpdateTran // nil for a read transaction
-	rt    *ReadTran
-	dead  bool                       // aborted (by the checker or explicitly)
-	view  []map[uint64]dpRow         // shadow: rows this transaction must see, per table
-	startView []map[uint64]dpRow     // shadow: the committed rows when it started
-	first map[string]string          // first result of every scan (repeatable reads)
-	wrote []bool
-	stale [][]dpRow // per table: row versions this transaction itself replaced or deleted
+	id        int
+	ut        *UpdateTran // nil for a read transaction
+	rt        *ReadTran
+	dead      bool               // aborted (by the checker or explicitly)
+	view      []map[uint64]dpRow // shadow: rows this transaction must see, per table
+	startView []map[uint64]dpRow // shadow: the committed rows when it started
+	first     map[string]string  // first result of every scan (repeatable reads)
+	wrote     []bool
+	stale     [][]dpRow // per table: row versions this transaction itself replaced or deleted
 }
 
 type dpHist struct {
-	tr      *lib.Trace
-	r       *rand.Rand
-	cfg     dpCfg
-	db      *Database
-	ck      *Check
-	tables  []string
-	live    []map[uint64]dpRow // shadow of the committed rows per table (serial application)
-	pending []int              // committed, unmerged layers per table
-	trans   []*dpTran
-	nextId  int
-	newIdx  [][][]string // candidate new indexes per table
-	failed  bool
-	soft    bool
+	tr         *lib.Trace
+	r          *rand.Rand
+	cfg        dpCfg
+	db         *Database
+	ck         *Check
+	tables     []string
+	live       []map[uint64]dpRow // shadow of the committed rows per table (serial application)
+	pending    []int              // committed, unmerged layers per table
+	trans      []*dpTran
+	nextId     int
+	newIdx     [][][]string // candidate new indexes per table
+	failed     bool
+	soft       bool
 	plainBuild bool // scripted history: index build without any generated extras
-	hid     int
-	log     []string // op lines of this history (for failure descriptions)
+	hid        int
+	log        []string // op lines of this history (for failure descriptions)
 }
 
 func dpRec(k, a, b string) core.Record {
@@ -660,6 +661,21 @@ func (h *dpHist) merge(tn, n int, race bool) {
 	h.tr.Count(fmt.Sprint("merge n=", n, " race=", race))
 }
 
+// readDisk reads a persisted state back from storage (what OpenDatabase does); a panic of the
+// implementation is an outcome (F line), not a suite crash
+func (h *dpHist) readDisk(off uint64) (st *DbState) {
+	msg := lib.Catch(func() { st = ReadState(h.db.Store, off) })
+	if msg != "" {
+		sig := "reopen-panic"
+		if strings.Contains(msg, "checksum") {
+			sig = "reopen-metadata-cksum"
+		}
+		h.fail(sig, fmt.Sprintf("the state persisted at offset %d cannot be read back (ReadState): %s", off, msg))
+		return nil
+	}
+	return st
+}
+
 type dpExec struct {
 	results []meta.PersistUpdate
 	between func()
@@ -688,7 +704,10 @@ func (h *dpHist) persist(race bool) {
 	h.q("persista", "ok")
 	h.tr.Count(fmt.Sprint("persist race=", race))
 	// what a reopen of this persisted state reads
-	disk := ReadState(h.db.Store, st.Off)
+	disk := h.readDisk(st.Off)
+	if disk == nil {
+		return
+	}
 	rt := &ReadTran{tran: tran{db: h.db, meta: disk.Meta}}
 	for tn, table := range h.tables {
 		ts := disk.Meta.GetRoSchema(table)
@@ -729,7 +748,10 @@ func (h *dpHist) quiesce() {
 		return
 	}
 	h.q("persista", "ok")
-	disk := ReadState(h.db.Store, st.Off)
+	disk := h.readDisk(st.Off)
+	if disk == nil {
+		return
+	}
 	rt := &ReadTran{tran: tran{db: h.db, meta: disk.Meta}}
 	for tn, table := range h.tables {
 		ts := disk.Meta.GetRoSchema(table)
@@ -974,9 +996,9 @@ func (h *dpHist) run() {
 // runScripted: the minimal schedules of the defects this check has found, played first
 // (regression inputs; they pass on a repaired tree).
 //
-//	1. a row that exists only in ixbuf layers when an index is built (so the new index has it
-//	   in its btree), deleted before it was ever persisted, merged, persisted, reopened
-//	   (findings/C06.md "persist skips a table whose first index has an empty base layer")
+//  1. a row that exists only in ixbuf layers when an index is built (so the new index has it
+//     in its btree), deleted before it was ever persisted, merged, persisted, reopened
+//     (findings/C06.md "persist skips a table whose first index has an empty base layer")
 func (h *dpHist) runScripted() {
 	h.db = CreateDb(stor.HeapStor(64 * 1024))
 	h.db.CheckerSync()
@@ -1023,6 +1045,75 @@ func (h *dpHist) runScripted() {
 		h.quiesce() // merge everything, persist, reopen view, full check
 	}
 	h.tr.Count("scripted: build, delete of a never persisted row, persist, reopen")
+}
+
+// runStaleClock (scripted, regression input of findings/C16.md "LayeredOnto stamps lastMod with
+// the clock of the transaction's snapshot"): a transaction that started several persists ago
+// commits a change to a table (here a net-empty one: output + delete) while the table's current
+// persisted version sits in a newer chunk of the metadata chain; persists go on before that
+// commit is merged.  Every persisted state must be readable.  Played for a few placements of the
+// old transaction's start (r0) and of the table's last save (r1) relative to the chain's merge
+// rhythm.
+func (h *dpHist) runStaleClock(r0, r1 int) {
+	h.db = CreateDb(stor.HeapStor(64 * 1024))
+	h.db.CheckerSync()
+	h.ck = h.db.ck.(*Check)
+	h.q("reset", "ok")
+	h.tables = []string{"t0", "t1"}
+	for range h.tables {
+		h.live = append(h.live, map[uint64]dpRow{})
+		h.pending = append(h.pending, 0)
+	}
+	for _, name := range h.tables {
+		h.db.Create(&schema.Schema{Table: name, Columns: []string{"k", "a", "b"},
+			Indexes: []schema.Index{{Mode: 'k', Columns: []string{"k"}}}})
+		h.q("table 1", "ok")
+	}
+	n := 0
+	outRow := func(t *dpTran, tn int) uint64 {
+		n++
+		ts := t.ut.getSchema(h.tables[tn])
+		k := fmt.Sprintf("k%03d", n)
+		rec := dpRec(k, "a", "").Truncate(len(ts.Columns))
+		keys := h.keysOf(ts, rec)
+		t.ut.Output(nil, h.tables[tn], rec)
+		off := t.ut.ReadTran.Lookup(h.tables[tn], 0, keys[0]).Off
+		t.view[tn][off] = dpRow{off, rec.Len(), k, "a", ""}
+		t.wrote[tn] = true
+		h.q(fmt.Sprintf("out %d %d %d %d %s", t.id, tn, off, rec.Len(), lib.Xs(keys)), "ok")
+		return off
+	}
+	round := func(tn int) { // one committed row, merged, persisted
+		h.begin(true)
+		t := h.trans[len(h.trans)-1]
+		outRow(t, tn)
+		h.finish(t, true)
+		h.merge(tn, h.pending[tn], false)
+		h.persist(false)
+	}
+	var old *dpTran
+	for r := 0; r < r1+14 && !h.failed; r++ {
+		switch {
+		case r == r0:
+			h.begin(true)
+			old = h.trans[len(h.trans)-1]
+		case r == r1:
+			round(0) // table t0 saved: its persisted version is now in a recent chunk
+		case r == r1+1:
+			off := outRow(old, 0)
+			old.ut.Delete(nil, "t0", off)
+			delete(old.view[0], off)
+			h.q(fmt.Sprintf("del %d 0 %d", old.id, off), "ok")
+			h.finish(old, true) // committed, NOT merged before the following persists
+		default:
+			round(1)
+		}
+	}
+	if !h.failed {
+		h.observe()
+		h.quiesce()
+	}
+	h.tr.Count("scripted: commit of an old transaction, persists before its merge")
 }
 
 // bigTran: one transaction that reaches writeMax
@@ -1083,16 +1174,33 @@ func dpMain(t *testing.T, cfg dpCfg) {
 	checkerAbortT1 = true // deterministic victim
 	tr := lib.Open()
 	defer tr.Close()
-	r := lib.Rand()
 	n := lib.N(100)
+	only, steps := -1, 0
+	fmt.Sscan(os.Getenv("VERIF_HIST"), &only)   // replay a single history
+	fmt.Sscan(os.Getenv("VERIF_STEPS"), &steps) // … cut after this many steps (shrinking)
+	if steps > 0 {
+		cfg.steps = steps
+	}
 	for i := 0; i < n; i++ {
+		if only >= 0 && i != only {
+			continue
+		}
+		// every history has its own stream, so that it can be replayed and shrunk alone
+		r := rand.New(rand.NewSource(lib.Seed()*1000003 + int64(i)))
 		h := &dpHist{tr: tr, r: r, cfg: cfg, hid: i}
-		if cfg.bigTran && i == 0 {
-			h.runBig()
-		} else if cfg.wBuild > 0 && i == 0 {
-			h.runScripted()
-		} else {
-			h.run()
+		// no panic of the implementation may crash the suite: it becomes a failing input
+		if msg := lib.Catch(func() {
+			if cfg.bigTran && i == 0 {
+				h.runBig()
+			} else if cfg.wBuild > 0 && i == 0 {
+				h.runScripted()
+			} else if cfg.name == "c16" && i >= 1 && i <= 9 {
+				h.runStaleClock(1+(i-1)%3, 1+(i-1)%3+2+(i-1)/3)
+			} else {
+				h.run()
+			}
+		}); msg != "" {
+			h.fail("impl-panic", "uncaught panic of the implementation: "+msg)
 		}
 		if i < 2 && len(h.log) > 12 {
 			tr.Sample(strings.Join(h.log[:12], "; ") + " …")
@@ -1150,68 +1258,79 @@ func TestVerifC03Async(t *testing.T) {
 		return rt.Lookup("t", 0, ts.Indexes[0].Ixspec.Key(dpRec(key, "", ""))) != nil
 	}
 	for i := 0; i < n; i++ {
-		key := fmt.Sprintf("k%04d", i)
-		ut := db.NewUpdateTran()
-		if ut == nil {
-			continue
-		}
-		if msg := lib.Catch(func() { ut.Output(nil, "t", dpRec(key, fmt.Sprint("a", r.Intn(3)), "")) }); msg != "" {
-			tr.Fail("async-output-panic", msg)
-			break
-		}
-		hold := r.Intn(4) != 0
-		before := db.GetState()
-		nrowsBefore := db.NewReadTran().GetInfo("t").Nrows
-		done := make(chan string, 1)
-		if hold {
-			db.state.mutex.Lock()
-		}
-		go func() { done <- ut.Complete() }()
-		res, early := "", false
-		if hold {
-			select {
-			case res = <-done:
-				early = true // replied while the state could not have been published
-			case <-time.After(40 * time.Millisecond):
+		if msg := lib.Catch(func() {
+			key := fmt.Sprintf("k%04d", i)
+			ut := db.NewUpdateTran()
+			if ut == nil {
+				return
 			}
-			if early && res == "" {
-				if db.GetState() == before && !visible(key) {
-					tr.Fail("commit-acked-before-visible", fmt.Sprintf("commit %d: Complete() reported success while the state mutex was held (no UpdateState possible): a read transaction started after the reply does not see row %q (Nrows still %d)",
-						i, key, nrowsBefore))
+			if msg := lib.Catch(func() { ut.Output(nil, "t", dpRec(key, fmt.Sprint("a", r.Intn(3)), "")) }); msg != "" {
+				tr.Fail("async-output-panic", msg)
+				return
+			}
+			hold := r.Intn(4) != 0
+			before := db.GetState()
+			nrowsBefore := db.NewReadTran().GetInfo("t").Nrows
+			done := make(chan string, 1)
+			if hold {
+				db.state.mutex.Lock()
+			}
+			go func() {
+				res := ""
+				if msg := lib.Catch(func() { res = ut.Complete() }); msg != "" {
+					res = "!panic: " + msg
 				}
-			}
-			db.state.mutex.Unlock()
-			if !early {
+				done <- res
+			}()
+			res, early := "", false
+			if hold {
+				select {
+				case res = <-done:
+					early = true // replied while the state could not have been published
+				case <-time.After(40 * time.Millisecond):
+				}
+				if early && res == "" {
+					if db.GetState() == before && !visible(key) {
+						tr.Fail("commit-acked-before-visible", fmt.Sprintf("commit %d: Complete() reported success while the state mutex was held (no UpdateState possible): a read transaction started after the reply does not see row %q (Nrows still %d)",
+							i, key, nrowsBefore))
+					}
+				}
+				db.state.mutex.Unlock()
+				if !early {
+					res = <-done
+				}
+			} else {
 				res = <-done
 			}
-		} else {
-			res = <-done
-		}
-		tr.Count(fmt.Sprintf("async commit hold=%v early=%v ok=%v", hold, early, res == ""))
-		if res == "" {
-			// truthfulness after the reply, without any help from the scheduler
-			if !visible(key) {
-				tr.Fail("commit-acked-before-visible", fmt.Sprintf("commit %d: Complete() returned success but a read transaction started afterwards does not see row %q", i, key))
+			tr.Count(fmt.Sprintf("async commit hold=%v early=%v ok=%v", hold, early, res == ""))
+			if res == "" {
+				// truthfulness after the reply, without any help from the scheduler
+				if !visible(key) {
+					tr.Fail("commit-acked-before-visible", fmt.Sprintf("commit %d: Complete() returned success but a read transaction started afterwards does not see row %q", i, key))
+				}
+				if got := db.NewReadTran().GetInfo("t").Nrows; got != nrowsBefore+1 {
+					tr.Fail("info-nrows", fmt.Sprintf("commit %d: Nrows %d after a successful commit of one row, was %d", i, got, nrowsBefore))
+				}
+			} else if visible(key) {
+				tr.Fail("failed-commit-visible", fmt.Sprintf("commit %d: Complete() = %q but row %q is visible", i, res, key))
 			}
-			if got := db.NewReadTran().GetInfo("t").Nrows; got != nrowsBefore+1 {
-				tr.Fail("info-nrows", fmt.Sprintf("commit %d: Nrows %d after a successful commit of one row, was %d", i, got, nrowsBefore))
+			// an aborted transaction leaves nothing
+			if r.Intn(4) == 0 {
+				ut2 := db.NewUpdateTran()
+				k2 := key + "x"
+				lib.Catch(func() { ut2.Output(nil, "t", dpRec(k2, "a", "")) })
+				ut2.Abort()
+				if res := ut2.Complete(); res == "" {
+					tr.Fail("commit-after-abort", "Complete() after Abort() reported success")
+				}
+				if visible(k2) {
+					tr.Fail("failed-commit-visible", fmt.Sprintf("row %q of an aborted transaction is visible", k2))
+				}
+				tr.Count("async abort")
 			}
-		} else if visible(key) {
-			tr.Fail("failed-commit-visible", fmt.Sprintf("commit %d: Complete() = %q but row %q is visible", i, res, key))
-		}
-		// an aborted transaction leaves nothing
-		if r.Intn(4) == 0 {
-			ut2 := db.NewUpdateTran()
-			k2 := key + "x"
-			lib.Catch(func() { ut2.Output(nil, "t", dpRec(k2, "a", "")) })
-			ut2.Abort()
-			if res := ut2.Complete(); res == "" {
-				tr.Fail("commit-after-abort", "Complete() after Abort() reported success")
-			}
-			if visible(k2) {
-				tr.Fail("failed-commit-visible", fmt.Sprintf("row %q of an aborted transaction is visible", k2))
-			}
-			tr.Count("async abort")
+		}); msg != "" {
+			tr.Fail("impl-panic", fmt.Sprintf("async commit %d: %s", i, msg))
+			break
 		}
 	}
 }
